@@ -94,7 +94,7 @@ def queries(ctx):
     return qs
 
 MANIFEST = {
- "text": "Bounded model checking of the real multiplication sources with limb products abstracted to uninterpreted functions shared by code and oracle (domain D-UF: the translated mulq and the reference schoolbook call the same UF pair, so a proof holds for real products; a UF counterexample counts only if it reproduces natively): mpn_mul_1/addmul_1/submul_1, mpn_mul_basecase, mpn_mul, mpn_mul_n and the mpz layer (mpz_mul, mul_ui, mul_si, addmul, submul, addmul_ui, submul_ui) for every enumerated size/sign/alias/allocation shape and all limb contents.",
- "note": "Bounds: mpn n <= 4 (quick) / 6; basecase shapes up to 4x1,3x2 (quick) / 3x3,6x1 (thorough); mpz operand sizes <= 2 limbs (quick; accumulate forms: |su|+|sv| <= 3, accumulator -3..3 limbs) / 3-4 (thorough), every sign pair, u==v object, w==u, w==v, all-same, destination alloc 1 and exact. Outside: Karatsuba/Toom/FFT recombination values (products there are algebraic identities, measured out of reach: DESIGN 1 P4/P11) - those regimes get the size/contract checks of the D-SHAPE families; sqr_basecase.asm is represented by its generic C twin here and compared with it under C14.",
+ "text": "Bounded model checking of the real multiplication sources with limb products abstracted to uninterpreted functions shared by code and oracle (domain D-UF: the translated mulq and the reference schoolbook call the same UF pair, so a proof holds for real products; a UF counterexample counts only if it reproduces natively): mpn_mul_1/addmul_1/submul_1, mpn_mul_basecase, mpn_mul, mpn_mul_n and the mpz layer (mpz_mul, mul_ui, mul_si, addmul, submul, addmul_ui, submul_ui) for every enumerated size/sign/alias/allocation shape and all limb contents. FFT regime (domain D-SHAPE): the real mpn_mul_trunc_sqrt2 worker with every leaf (split/combine, transforms, normmod, pointwise mulmod, div_2expmod) replaced by a stub asserting the leaf's documented contract, for symbolic operand lengths: chunk width, coefficient length, transform length, scaling by 2^(depth+2), the top-bit flags handed to the pointwise product, every coefficient inside the temporary block, and the necessary no-wrap condition m*(2^b-1)^2 <= 2^(nw).",
+ "note": "Bounds: mpn n <= 4 (quick) / 6; basecase shapes up to 4x1,3x2 (quick) / 3x3,6x1 (thorough); mpz operand sizes <= 2 limbs (quick; accumulate forms: |su|+|sv| <= 3, accumulator -3..3 limbs) / 3-4 (thorough), every sign pair, u==v object, w==u, w==v, all-same, destination alloc 1 and exact. FFT parameter family: depth 2 (n = 4) with w = 16, 32 (thorough also 48, 64), multiplication and squaring, operand lengths symbolic up to what the transform holds (j1+j2-1 <= 4n); depth >= 3 measured out of reach (memory-out at 12 GB / no verdict in 300 s) and mpn_mul_fft_main's own search is checked under C15 (C15_calls.c FN 0). Outside: Karatsuba/Toom/FFT recombination values (products there are algebraic identities, measured out of reach: DESIGN 1 P4/P11) - those regimes get the size/contract checks of the D-SHAPE families; sqr_basecase.asm is represented by its generic C twin here and compared with it under C14.",
  "technique": "bounded symbolic execution of the real C sources with CBMC (SAT), limb products as shared uninterpreted functions, concrete shapes x symbolic limb contents, native replay of counterexamples",
 }
